@@ -10,6 +10,7 @@ from kv.gen import store
 from kv.rig import *  # noqa
 
 E = enums
+T = rig.T
 IDENTS = [('alice', None), ('bob', None), ('alice', ['g1']), ('carol', []), ('bob', ['ops']), ('bob', ['dev']), ('alice', ['dev'])]
 FIXED_KEY = bytes(range(16))
 
@@ -22,7 +23,7 @@ def plan(tier):
                 'database under the same virtual clock; a cell is (kind of last prefix request, probe, '
                 'same/other identity, version change, outcome)',
         'min_monitor': {'twin_pairs_compared': 300, 'probes_identifierless': 100, 'connection_twin_pairs_compared': 80,
-                        'fresh_process_twins_compared': 100},
+                        'fresh_process_twins_compared': 100, 'beside_answers_compared': 200},
         'assumptions': ['probes are random-free so the twin is comparable byte for byte',
                         'copying the SQLite file between requests yields the committed store'],
     }
@@ -30,7 +31,8 @@ def plan(tier):
 
 def cases(tier, seed):
     n = 192 if tier == 'quick' else 1200
-    return [{'hist': i} for i in range(n)] + [{'conn': i} for i in range(128 if tier == 'quick' else 800)]
+    return [{'hist': i} for i in range(n)] + [{'conn': i} for i in range(128 if tier == 'quick' else 800)] + \
+        [{'beside': i} for i in range(16 if tier == 'quick' else 160)]
 
 
 LAST_KINDS = ['create', 'register', 'create_key_pair', 'derive_key', 'batch_create_get',
@@ -310,7 +312,103 @@ def run_connection(ctx, case):
             srv.close()
 
 
+def run_beside(ctx, case):
+    """Nothing transient carries over from the requests of ANOTHER client either - also when that client is being served at
+    the same moment.  Three clients (different users and KMIP versions) on threads of their own; every client's script is
+    built so that its answers do not depend on what the others do: batches that create an object and read it back through
+    the ID placeholder, identifier-less reads with no creating item before them (no placeholder: refused), reads of its
+    own objects under its own version.  Every answer is compared with the answer the same request gets when the client is
+    alone (creations compared after masking identifiers and generated material by shape: status, operation, attribute
+    names)."""
+    from kv.monitors.concurrent import run_clients
+    rng = ctx.rng()
+    rig.install_clock(rig.VClock(step=0))
+    users = [(('alice', None), (1, 2)), (('bob', None), (2, 0)), (('carol', None), (1, 0)), (('dave', None), (1, 4))]
+    clients = rng.sample(users, 3)
+    A = E.AttributeType
+    with rig.scratch_dir() as d:
+        srv = rig.Server(d + '/db.sqlite')
+        try:
+            own = {}
+            for (u, _), v in clients:
+                o = store.register(srv, 'sym', u, rng, state='active', names=['beside-%s' % u], value=FIXED_KEY)
+                if o is None:
+                    ctx.unsure('setup of a C11 beside-history failed')
+                    return
+                own[u] = o.uid
+            scripts, kinds = [], []
+            for (u, g), v in clients:
+                frames, ks = [], []
+                for j in range(rng.randrange(6, 12)):
+                    k = rng.randrange(5)
+                    if k == 0:       # the placeholder belongs to this batch
+                        ops = [op_register('secret', secret_data(b'pw-%s-%d' % (u.encode(), j)), common_attrs(names=['bs-%s-%d' % (u, j)])),
+                               op_get(None), op_get_attributes(None, ['Name', 'Object Type'])]
+                        kind = 'placeholder-batch'
+                    elif k == 1:     # no creating item: there is no placeholder, whatever others just created
+                        ops = [rng.choice((op_get(None), op_get_attributes(None), op_get_attribute_list(None)))]
+                        kind = 'no-placeholder'
+                    elif k == 2:
+                        ops = [op_get_attribute_list(own[u])]
+                        kind = 'own-attribute-list'
+                    elif k == 3:
+                        ops = [op_get_attributes(own[u], ['Operation Policy Name', 'Sensitive', 'State'])]
+                        kind = 'own-attributes'
+                    else:
+                        ops = [op_query((E.QueryFunction.QUERY_OPERATIONS,))]
+                        kind = 'query'
+                    try:
+                        frames.append(rig.encode_request(rig.build_request(v, ops), v))
+                        ks.append(kind)
+                    except Exception:
+                        pass
+                scripts.append(((u, g), frames))
+                kinds.append(ks)
+
+            def shape(r):
+                if isinstance(r, BaseException) or r.error is not None:
+                    return ('raised',)
+                out = []
+                for it in r.items:
+                    names_ = sorted(x[2] for _, x in T.walk(it['payload']) if x[0] == 0x42000A) if it['payload'] is not None else []
+                    data_ = [x[2] for _, x in T.walk(it['payload']) if x[0] in (0x420043, 0x420055)] if it['payload'] is not None else []
+                    out.append((it['status'], it['reason'], it['operation'], tuple(names_), tuple(map(repr, data_)),
+                                tuple(k_[2] for k_ in T.kids(it['payload'], T.T_OPERATION)) if it['payload'] is not None else ()))
+                return (r.header_version, tuple(out))
+            # alone: each client's script on a copy of the store
+            alone = []
+            for ident, frames in scripts:
+                tp = d + '/alone.sqlite'
+                shutil.copyfile(srv.db_path, tp)
+                tw = rig.Server(tp)
+                try:
+                    alone.append([shape(tw.send_bytes(q, ident, strict_decode=False)) for q in frames])
+                finally:
+                    tw.close()
+            results, yields, finished = run_clients(srv, scripts, rng, name='kv-c11')
+            if not finished:
+                ctx.unsure('a client thread of a C11 beside-history did not finish within 90 s')
+                return
+            ctx.ev()
+            ctx.count('beside_histories')
+            ctx.count('beside_yields_injected', yields)
+            ctx.cell('beside', '+'.join('%d.%d' % v for _, v in clients))
+            for ci, ((ident, frames), ks) in enumerate(zip(scripts, kinds)):
+                for j, (q, kind) in enumerate(zip(frames, ks)):
+                    ctx.count('beside_answers_compared')
+                    got = shape(results[ci][j]) if j < len(results[ci]) else ('missing',)
+                    if got != alone[ci][j]:
+                        ctx.violation('beside|%s' % kind, 'a %s request of %r under KMIP %d.%d is answered differently while other clients are being '
+                                      'served: %s; alone: %s' % ((kind, ident) + clients[ci][1] + (str(got)[:300], str(alone[ci][j])[:300])),
+                                      {'clients': [(c[0][0], c[1]) for c in clients]})
+                        break
+        finally:
+            srv.close()
+
+
 def run_case(ctx, case):
+    if 'beside' in case:
+        return run_beside(ctx, case)
     if 'conn' in case:
         return run_connection(ctx, case)
     rng = ctx.rng()
